@@ -1378,7 +1378,7 @@ def _execute(trace, ctx, ref_spec, tgt_spec, scale, n, m, ref_pos0, tgt_pos0):
 
 
 def _rigid_fit(A, B):
-    """(R, t) with B = A R^T + t when B is a rigid copy of A (residual below 1e-10 relative, proper rotation, A not collinear);
+    """(R, t) with B = A R^T + t when B is a rigid copy of A (residual below 5e-13 relative, proper rotation, A not collinear);
     None otherwise."""
     A = np.asarray(A, dtype=float)
     B = np.asarray(B, dtype=float)
@@ -1391,7 +1391,9 @@ def _rigid_fit(A, B):
     R = Vt.T @ np.diag([1.0, 1.0, d]) @ U.T
     t = cb - R @ ca
     res = float(np.max(np.abs(A @ R.T + t - B)))
-    if d < 0 or res > 1e-10 * max(1.0, float(np.max(np.abs(B)))):
+    # (a rigid copy made by the harness or by the library's move / rotate is exact to a few ulp; the "almost the same
+    #  argument" conformations, displaced by 1e-9 nm and more per atom, must NOT pass as rigid copies)
+    if d < 0 or res > 5e-13 * max(1.0, float(np.max(np.abs(B)))):
         return None
     return R, t
 
